@@ -202,7 +202,7 @@ func (E *Engine) attach(cfg *PropConfig, only string) []target {
 		fc := E.contracts[k]
 		fn := byKey[k]
 		isIfaceMethod := strings.Contains(fc.Name, "(") && fn == nil && E.isInterfaceContract(k)
-		if fc.Trusted || isIfaceMethod {
+		if fc.Trusted || isIfaceMethod || strings.HasPrefix(fc.Name, "field ") {
 			continue
 		}
 		if fn == nil {
